@@ -34,7 +34,7 @@ CheckMatch(e, line) ==
   IN /\ (impl = e.res \/ Bad(line, "impl", impl, e.res))
      /\ (core => /\ PrintT(<<"CORE", line>>)
                  /\ LET ref == MatchRef(e.doc, e.q) IN
-                    /\ (ref = e.res \/ Bad(line, "ref", ref, e.res))
+                    /\ (ref = e.res \/ Bad(line, IF MatchRefKF(e.doc, e.q) = e.res THEN "ref-kf-deps" ELSE "ref", ref, e.res))
                     /\ (ref = impl \/ Bad(line, "impl-vs-ref", ref, impl)))
 
 (* mongokit.Apply: rejection, resulting document (up to $currentDate values) and recorded changes *)
@@ -86,8 +86,16 @@ CheckProject(e, line) ==
           ELSE /\ (exp.doc = e.res.doc \/ Bad(line, "project-doc", exp.doc, e.res.doc))
                /\ (SubDocument(e.res.doc, e.doc) \/ Bad(line, "project-subdocument", e.doc, e.res.doc))
 
+(* bsonkit.Schema.Evaluate on a value: "T" valid, "F" validation failed, "E" the schema is rejected *)
+CheckSchema(e, line) ==
+  IF ~SchemaWF(e.schema) THEN PrintT(<<"OUTDOM", line>>)
+  ELSE /\ PrintT(<<"INDOM", line>>)
+       /\ LET exp == SB(Valid(e.schema, e.value)) IN
+          (exp = e.res \/ Bad(line, IF SB(ValidX(e.schema, e.value, TRUE)) = e.res THEN "schema-kf-deps" ELSE "schema", exp, e.res))
+
 CheckCase(e, line) ==
   CASE e.fn = "match" -> CheckMatch(e, line)
+    [] e.fn = "schema" -> CheckSchema(e, line)
     [] e.fn = "apply" -> CheckApply(e, line)
     [] e.fn = "find" -> CheckFind(e, line)
     [] e.fn = "distinct" -> CheckDistinct(e, line)
